@@ -573,11 +573,34 @@ type unpackCase struct {
 }
 
 func (c unpackCase) key(clause string) string {
-	if clause == "must-error" && refpack.Parse(platform(), c.fs).St == refpack.Err {
-		// the format itself is malformed: data and init are irrelevant
-		return fmt.Sprintf("unpack fmt=%q clause=malformed-format-accepted", c.fs)
-	}
 	return unpackKey(c.fs, c.data, c.init, c.hasInit, clause)
+}
+
+// malformedKey: the format itself is malformed and was accepted; data and init
+// are irrelevant.  The smallest token subsequence that is still malformed and
+// still accepted on benign data (zeros decode under every option) names it.
+func malformedKey(toks []int, fs string) string {
+	zeros := rep(0, 64)
+	accepted := func(f string) bool {
+		if refpack.Parse(platform(), f).St != refpack.Err {
+			return false
+		}
+		return unpackCase{fs: f, data: zeros}.fails("must-error")
+	}
+	if len(toks) > 1 && joinToks(toks) == fs {
+		for size := 1; size < len(toks); size++ {
+			for _, ss := range subseqs(len(toks), size) {
+				var st []int
+				for _, p := range ss {
+					st = append(st, toks[p])
+				}
+				if f := joinToks(st); accepted(f) {
+					return fmt.Sprintf("unpack fmt=%q clause=malformed-format-accepted", f)
+				}
+			}
+		}
+	}
+	return fmt.Sprintf("unpack fmt=%q clause=malformed-format-accepted", fs)
 }
 
 func (c unpackCase) fails(clause string) bool {
@@ -590,7 +613,15 @@ func (c unpackCase) fails(clause string) bool {
 // (reading the data from where the reference says that option starts), and
 // the shortest data prefix.  One defect then yields few keys, whatever
 // surrounds it.  toks may be nil.
-func attributeUnpack(toks []int, c unpackCase, clause string) unpackCase {
+func attributeUnpack(toks []int, c unpackCase, clause string) string {
+	P := platform()
+	if clause == "must-error" && refpack.Parse(P, c.fs).St == refpack.Err {
+		return malformedKey(toks, c.fs)
+	}
+	return reduceUnpack(toks, c, clause).key(clause)
+}
+
+func reduceUnpack(toks []int, c unpackCase, clause string) unpackCase {
 	P := platform()
 	// 1. fold init into the data
 	if c.hasInit {
@@ -608,31 +639,45 @@ func attributeUnpack(toks []int, c unpackCase, clause string) unpackCase {
 			}
 		}
 	}
-	// 2. a single option
+	// 2. a single option, reading from where the reference says it starts
 	f := refpack.Parse(P, c.fs)
 	reduced := false
-	if f.St == refpack.OK && len(f.Ops) > 1 && !c.hasInit {
-		r := refpack.Unpack(P, f, []byte(c.data), 0, 0)
+	if f.St == refpack.OK {
+		n := int64(len(c.data))
+		pos := 0
+		switch {
+		case !c.hasInit:
+		case c.init > 0 && c.init <= n+1:
+			pos = int(c.init - 1)
+		case c.init < 0 && -c.init <= n:
+			pos = int(n + c.init)
+		default:
+			pos = -1
+		}
 	ops:
-		for k, op := range f.Ops {
-			if k >= len(r.Starts) || r.Starts[k] > len(c.data) {
+		for _, base := range []int{0, pos} {
+			if pos < 0 || !c.hasInit && len(f.Ops) < 2 {
 				break
 			}
-			end := ""
-			if op.Little != P.Little {
-				end = map[bool]string{true: "<", false: ">"}[op.Little]
-			}
-			cands := []string{op.Text, end + op.Text, fmt.Sprintf("%s!%d%s", end, op.MaxAlign, op.Text)}
-			for _, cf := range cands {
-				if t := (unpackCase{fs: cf, data: c.data[r.Starts[k]:]}); t.fails(clause) {
-					c, reduced = t, true
-					break ops
+			r := refpack.Unpack(P, f, []byte(c.data), pos, base)
+			for k, op := range f.Ops {
+				if k >= len(r.Starts) || r.Starts[k] > len(c.data) {
+					break
+				}
+				end := ""
+				if op.Little != P.Little {
+					end = map[bool]string{true: "<", false: ">"}[op.Little]
+				}
+				for _, cf := range []string{op.Text, end + op.Text, fmt.Sprintf("%s!%d%s", end, op.MaxAlign, op.Text)} {
+					if t := (unpackCase{fs: cf, data: c.data[r.Starts[k]:]}); t.fails(clause) {
+						c, reduced = t, true
+						break ops
+					}
 				}
 			}
 		}
 	}
 	if !reduced && len(toks) > 1 && joinToks(toks) == c.fs {
-	subs:
 		for size := 1; size < len(toks); size++ {
 			for _, ss := range subseqs(len(toks), size) {
 				var st []int
@@ -642,8 +687,19 @@ func attributeUnpack(toks []int, c unpackCase, clause string) unpackCase {
 				t := c
 				t.fs = joinToks(st)
 				if t.fails(clause) {
-					c = t
-					break subs
+					// fewer tokens: start over (the rest may now parse)
+					return reduceUnpack(st, t, clause)
+				}
+			}
+		}
+	}
+	// 2b. one token alone on some suffix of the data (covers formats the
+	// reference cannot parse, where no start offsets are known)
+	if !reduced && len(toks) > 1 && joinToks(toks) == c.fs {
+		for _, tk := range toks {
+			for o := 0; o <= len(c.data); o++ {
+				if t := (unpackCase{fs: packAlphabet[tk], data: c.data[o:]}); t.fails(clause) {
+					return reduceUnpack(nil, t, clause)
 				}
 			}
 		}
@@ -712,6 +768,7 @@ var hugeCases = []hugeCase{
 	{"<s8", le(1<<40, 8)}, {"<s8", le(1<<48, 8)}, {"<s8", le(1<<62, 8)},
 	{"<s8", le(1<<63-1, 8)}, {"<s8", le(1<<63, 8)}, {"<s8", le(1<<64-1, 8)},
 	{"<s16", le(1<<40, 16)}, {"<s9", le(1<<63, 9)}, {"<s9", le(0, 8) + "\x01"},
+	{"c1099511627776", "abc"},
 }
 
 var argKinds = []struct {
@@ -866,7 +923,7 @@ func packFamilies(tier string) []*core.Family {
 			fs := joinToks(toks)
 			fails, sig, nt := unpackCheck(fs, data, init, has, false)
 			return outcomeOf(fails, sig, nt, func(clause string) string {
-				return attributeUnpack(toks, unpackCase{fs, data, init, has}, clause).key(clause)
+				return attributeUnpack(toks, unpackCase{fs, data, init, has}, clause)
 			}, func() string {
 				return fmt.Sprintf("string.unpack(%q, <%s>, %d) hasinit=%v", fs, hex.EncodeToString([]byte(data)), init, has)
 			})
@@ -896,7 +953,7 @@ func packFamilies(tier string) []*core.Family {
 			fs := joinToks(toks)
 			fails, sig, nt := unpackCheck(fs, data, 0, false, false)
 			return outcomeOf(fails, sig, nt, func(clause string) string {
-				return attributeUnpack(toks, unpackCase{fs: fs, data: data}, clause).key(clause)
+				return attributeUnpack(toks, unpackCase{fs: fs, data: data}, clause)
 			}, func() string { return fmt.Sprintf("string.unpack(%q, <%s>)", fs, hex.EncodeToString([]byte(data))) })
 		},
 		Show: func(i uint64) string {
@@ -921,7 +978,7 @@ func packFamilies(tier string) []*core.Family {
 			fs := joinToks(toks)
 			fails, sig, nt := unpackCheck(fs, data, init, has, false)
 			return outcomeOf(fails, sig, nt, func(clause string) string {
-				return attributeUnpack(toks, unpackCase{fs, data, init, has}, clause).key(clause)
+				return attributeUnpack(toks, unpackCase{fs, data, init, has}, clause)
 			}, func() string {
 				return fmt.Sprintf("string.unpack(%q, <%s>, %d) hasinit=%v", fs, hex.EncodeToString([]byte(data)), init, has)
 			})
